@@ -364,8 +364,11 @@ class Program:
         self.by_file = {}        # rfile -> [Function]
         self.callees = {}
         self.globals = []
+        self.enums = {}          # (header rfile, line of the enum) -> {enumerator: value}
         self.all = []
         for u in data["units"]:
+            for name, val, f, line in u.get("enums", ()):
+                self.enums.setdefault((relpath(u["files"][f]), line), {})[name] = val
             u["_ms"] = [parse_ms(s) for s in u["mstacks"]]
             u["_rg"] = [parse_rg(s) for s in u["regions"]]
             main = u.get("main") or u.get("src")
